@@ -5,8 +5,9 @@ following are NOT differences (property C18): a key that is null on one side and
 lists, int vs float vs decimal string carrying the same number, and |delta| <= 1/2 * 10**-d on a leaf whose YANG
 declaration has d fraction digits *when the left value carries more than d fraction digits* (a value with at most d
 digits must come back exactly).
-Returns None or (sig_path, detail): sig_path has list positions replaced by [*] (stable signature), detail carries the
-concrete path and both values.
+Returns None or (sig_path, detail): in sig_path entries of keyed lists appear as [*], positions of plain lists as [0]
+(first) or [1+] (any later one), uids used as dict keys as {*} (stable signature); detail carries the concrete path
+and both values.
 """
 import math
 from decimal import Decimal
@@ -65,8 +66,10 @@ def _sig(path):
     out = ''
     prev = None
     for p in path:
-        if isinstance(p, int) or (isinstance(p, tuple)):
-            out += '[*]'
+        if isinstance(p, tuple):
+            out += '[*]'                            # entry of a keyed list
+        elif isinstance(p, int):
+            out += '[0]' if p == 0 else '[1+]'      # positional list: first entry vs any later one
         elif prev in _BY_UID:
             out += '{*}'
         else:
@@ -101,19 +104,25 @@ def _num(x):
 
 
 class Differ:
-    def __init__(self, kind, tolerant=True, notes=None):
+    """collects every difference (one per signature path, bounded) in self.found as (sig_path, detail)"""
+
+    def __init__(self, kind, tolerant=True, notes=None, limit=8):
         self.kind = kind
         self.tolerant = tolerant        # False: numbers must be equal (idempotence checks)
         self.notes = notes if notes is not None else set()
+        self.found = []
+        self.limit = limit
 
     def fail(self, path, what, a, b):
-        return _sig(path), f'{_show(path)}: {what}: left={a!r} right={b!r}'
+        sig = _sig(path)
+        if len(self.found) < self.limit and all(sig != f[0] for f in self.found):
+            self.found.append((sig, f'{_show(path)}: {what}: left={a!r} right={b!r}'[:1500]))
 
     def number(self, path, a, b):
         # digits are looked up on the path without tuple keys (keyed-list identifiers behave like indices)
         lookup = tuple(0 if isinstance(p, tuple) else p for p in path)
         if a == b:
-            return None
+            return
         if not self.tolerant:
             return self.fail(path, 'number changed', a, b)
         d = declared_digits(self.kind, lookup)
@@ -127,13 +136,14 @@ class Differ:
         if abs(a - b) > tol + slack:
             return self.fail(path, f'|delta|={abs(a - b):.3g} > 1/2*10^-{d}', a, b)
         self.notes.add('rounded-within-precision')
-        return None
 
     def diff(self, a, b, path=()):
+        if len(self.found) >= self.limit:
+            return
         if isinstance(a, bool) or isinstance(b, bool):
             if a is not b:
-                return self.fail(path, 'boolean changed', a, b)
-            return None
+                self.fail(path, 'boolean changed', a, b)
+            return
         na, nb = _num(a), _num(b)
         if (is_number(a) or is_number(b)) and na is not None and nb is not None:
             if isinstance(a, str) or isinstance(b, str):
@@ -142,18 +152,17 @@ class Differ:
         if isinstance(a, dict) and isinstance(b, dict):
             for k in list(a) + [k for k in b if k not in a]:
                 if k not in a:
-                    return self.fail(path + (k,), 'key appeared', None, b[k])
-                if k not in b:
-                    return self.fail(path + (k,), 'key lost', a[k], None)
-                r = self.diff(a[k], b[k], path + (k,))
-                if r:
-                    return r
-            return None
+                    self.fail(path + (k,), 'key appeared', None, b[k])
+                elif k not in b:
+                    self.fail(path + (k,), 'key lost', a[k], None)
+                else:
+                    self.diff(a[k], b[k], path + (k,))
+            return
         if isinstance(a, list) and isinstance(b, list):
             name = next((p for p in reversed(path) if isinstance(p, str)), None)
-            # a list directly inside a dict keyed by degree uid (per_degree_design_bands) keeps the grand-parent's name
             keys = KEYED.get(name)
-            if keys is None and len(path) >= 2 and path[-2] == 'per_degree_design_bands':
+            # a list directly inside a dict keyed by degree uid (per_degree_design_bands) is a design_bands list
+            if len(path) >= 2 and path[-2] == 'per_degree_design_bands':
                 keys = KEYED['design_bands']
             if keys and all(isinstance(e, dict) and all(k in e for k in keys) for e in a + b):
                 def ident(e):
@@ -166,28 +175,23 @@ class Differ:
                     db.setdefault(ident(e), []).append(e)
                 for k in da:
                     if k not in db:
-                        return self.fail(path + (k,), 'list entry lost', da[k][0], None)
-                    if len(da[k]) != len(db[k]):
-                        return self.fail(path + (k,), 'number of entries with this key changed', len(da[k]), len(db[k]))
+                        self.fail(path + (k,), 'list entry lost', da[k][0], None)
+                    elif len(da[k]) != len(db[k]):
+                        self.fail(path + (k,), 'number of entries with this key changed', len(da[k]), len(db[k]))
+                    else:
+                        for ea, eb in zip(da[k], db[k]):
+                            self.diff(ea, eb, path + (k,))
                 for k in db:
                     if k not in da:
-                        return self.fail(path + (k,), 'list entry appeared', None, db[k][0])
-                for k in da:
-                    for ea, eb in zip(da[k], db[k]):
-                        r = self.diff(ea, eb, path + (k,))
-                        if r:
-                            return r
-                return None
+                        self.fail(path + (k,), 'list entry appeared', None, db[k][0])
+                return
             if len(a) != len(b):
                 return self.fail(path, 'list length changed', len(a), len(b))
             for i, (ea, eb) in enumerate(zip(a, b)):
-                r = self.diff(ea, eb, path + (i,))
-                if r:
-                    return r
-            return None
+                self.diff(ea, eb, path + (i,))
+            return
         if type(a) is not type(b) or a != b:
-            return self.fail(path, 'value changed', a, b)
-        return None
+            self.fail(path, 'value changed', a, b)
 
 
 def _default_roadm_variety(doc):
@@ -200,83 +204,112 @@ def _default_roadm_variety(doc):
 
 
 def doc_diff(kind, left, right, tolerant=True, notes=None):
+    """list of (sig_path, detail), one per differing path (bounded); empty when the documents agree"""
     a, b = prune(left), prune(right)
     if a is _ABSENT or b is _ABSENT:
         if a is b:
-            return None
-        return '', f'document vanished: left={left!r} right={right!r}'
+            return []
+        return [('', f'document vanished: left={left!r} right={right!r}'[:1500])]
     if kind == 'equipment':
         a, b = _default_roadm_variety(a), _default_roadm_variety(b)
-    return Differ(kind, tolerant, notes).diff(a, b)
+    d = Differ(kind, tolerant, notes)
+    d.diff(a, b)
+    return d.found
 
 
 # ------------------------------------------------------------------------------------------ python objects
 
-def obj_diff(a, b, path='', depth=0, seen=None):
-    """first difference between two object graphs built by the loaders, or None. Floats must be equal
-    (int == float by value, nan == nan), numpy arrays by value, instances by class name and __dict__."""
+def obj_diff(a, b):
+    """first difference between two object graphs built by the loaders, or None (see obj_diffs)"""
+    r = obj_diffs(a, b, limit=1)
+    return r[0] if r else None
+
+
+def obj_diffs(a, b, limit=8):
+    """differences ('path: what') between two object graphs built by the loaders, at most `limit`, one per path
+    with digits masked. Floats must be equal (int == float by value, nan == nan), numpy arrays by value, instances by
+    class name and __dict__."""
+    import re
+    out = []
+    seen_sig = set()
+
+    def emit(msg):
+        sig = re.sub(r'\d+', '#', msg.split(':')[0])
+        if sig not in seen_sig and len(out) < limit:
+            seen_sig.add(sig)
+            out.append(msg[:1500])
+
+    _obj_walk(a, b, '', 0, set(), emit, lambda: len(out) >= limit)
+    return out
+
+
+def _obj_walk(a, b, path, depth, seen, emit, full):
     import numpy as np
-    if depth > 40:
-        return None
-    if seen is None:
-        seen = set()
+    if depth > 40 or full():
+        return
     if isinstance(a, bool) or isinstance(b, bool):
-        return None if a is b else f'{path}: {a!r} != {b!r}'
+        if a is not b:
+            emit(f'{path}: {a!r} != {b!r}')
+        return
     if is_number(a) and is_number(b):
-        if a == b or (isinstance(a, float) and isinstance(b, float) and math.isnan(a) and math.isnan(b)):
-            return None
-        return f'{path}: {a!r} != {b!r}'
+        if not (a == b or (isinstance(a, float) and isinstance(b, float) and math.isnan(a) and math.isnan(b))):
+            emit(f'{path}: {a!r} != {b!r}')
+        return
     if isinstance(a, np.generic) or isinstance(b, np.generic):
         a = a.item() if isinstance(a, np.generic) else a
         b = b.item() if isinstance(b, np.generic) else b
-        return obj_diff(a, b, path, depth + 1, seen)
+        return _obj_walk(a, b, path, depth + 1, seen, emit, full)
     if isinstance(a, np.ndarray) or isinstance(b, np.ndarray):
         try:
             aa, bb = np.asarray(a), np.asarray(b)
         except Exception:  # noqa
-            return f'{path}: array vs {type(b).__name__}'
+            return emit(f'{path}: array vs {type(b).__name__}')
         if aa.shape != bb.shape:
-            return f'{path}: array shape {aa.shape} != {bb.shape}'
+            return emit(f'{path}: array shape {aa.shape} != {bb.shape}')
         if aa.dtype == object or bb.dtype == object:
-            return obj_diff(aa.tolist(), bb.tolist(), path, depth + 1, seen)
+            return _obj_walk(aa.tolist(), bb.tolist(), path, depth + 1, seen, emit, full)
         if aa.dtype.kind in 'US' or bb.dtype.kind in 'US':
-            return None if np.array_equal(aa, bb) else f'{path}: {aa!r} != {bb!r}'
+            if not np.array_equal(aa, bb):
+                emit(f'{path}: {aa!r} != {bb!r}')
+            return
         if not np.array_equal(aa, bb, equal_nan=True):
             i = int(np.argmax(~((aa == bb) | (np.isnan(aa) & np.isnan(bb)))))
-            return f'{path}: arrays differ first at flat index {i}: {aa.flat[i]!r} != {bb.flat[i]!r}'
-        return None
+            emit(f'{path}: arrays differ first at flat index {i}: {aa.flat[i]!r} != {bb.flat[i]!r}')
+        return
     if a is None or b is None or isinstance(a, str) or isinstance(b, str):
-        return None if (type(a) is type(b) and a == b) else f'{path}: {a!r} != {b!r}'
+        if not (type(a) is type(b) and a == b):
+            emit(f'{path}: {a!r} != {b!r}')
+        return
     if isinstance(a, dict) and isinstance(b, dict):
-        ka, kb = list(a.keys()), list(b.keys())
-        if set(map(repr, ka)) != set(map(repr, kb)):
-            return f'{path}: keys {sorted(map(repr, ka))} != {sorted(map(repr, kb))}'
         bmap = {repr(k): v for k, v in b.items()}
+        amap = {repr(k): v for k, v in a.items()}
+        if set(amap) != set(bmap):
+            emit(f'{path}: keys differ: only left {sorted(set(amap) - set(bmap))} only right {sorted(set(bmap) - set(amap))}')
         for k, v in a.items():
-            r = obj_diff(v, bmap[repr(k)], f'{path}.{k}' if path else str(k), depth + 1, seen)
-            if r:
-                return r
-        return None
+            if repr(k) in bmap:
+                _obj_walk(v, bmap[repr(k)], f'{path}.{k}' if path else str(k), depth + 1, seen, emit, full)
+        return
     if isinstance(a, (list, tuple)) and isinstance(b, (list, tuple)):
         if len(a) != len(b):
-            return f'{path}: length {len(a)} != {len(b)}'
+            return emit(f'{path}: length {len(a)} != {len(b)}')
         for i, (x, y) in enumerate(zip(a, b)):
-            r = obj_diff(x, y, f'{path}[{i}]', depth + 1, seen)
-            if r:
-                return r
-        return None
+            _obj_walk(x, y, f'{path}[{i}]', depth + 1, seen, emit, full)
+        return
     if type(a).__name__ != type(b).__name__:
-        return f'{path}: type {type(a).__name__} != {type(b).__name__}'
+        return emit(f'{path}: type {type(a).__name__} != {type(b).__name__}')
     if hasattr(a, '__dict__'):
         key = (id(a), id(b))
         if key in seen:
-            return None
+            return
         seen.add(key)
-        return obj_diff(vars(a), vars(b), path, depth + 1, seen)
+        return _obj_walk(vars(a), vars(b), path, depth + 1, seen, emit, full)
     if isinstance(a, (set, frozenset)):
-        return None if a == b else f'{path}: {a!r} != {b!r}'
+        if a != b:
+            emit(f'{path}: {a!r} != {b!r}')
+        return
     try:
         same = bool(a == b)
     except Exception:  # noqa
         same = True
-    return None if same else f'{path}: {a!r} != {b!r}'
+    if not same:
+        emit(f'{path}: {a!r} != {b!r}')
